@@ -202,9 +202,10 @@ def specFilter (base : Nat) : St V → List (List V) → List V → List Clause
       else []
     r ++ hl
   | .emedian p m q _, h, y =>
-    if inUnit p && inUnit m && inUnit q then
+    (match Spec.emedRec p m q (heads h) with | some (_, o) => [clauseEq "C13.emedian-recurrence" [o] y] | none => []) ++
+    (if inUnit p && inUnit m && inUnit q then
       [clauseP "C13.emedian-hull" (match y with | [v] => hull (heads h) v | _ => false) "within the samples' range"]
-    else []
+    else [])
   | .meanVar N _ _, h, y =>
     if N = 0 then [] else
     match y with
